@@ -9,6 +9,7 @@ import (
 	"sort"
 	"strings"
 	"sync"
+	"sync/atomic"
 	"testing"
 	"time"
 
@@ -35,6 +36,9 @@ type caseDesc struct {
 	ClientCert string `json:"client_cert"` // none, own, foreign, foreign-presented (foreign CA with the subject of the server's CA, so that the client really sends it), own-expired
 	Require    bool   `json:"require_client_cert"`
 	Host       string `json:"host_spelling"` // localhost, 127.0.0.1 (dns: example.org)
+	// Secret (udp only): the endpoint is in addition protected by a shared secret, equal on both ends; certificates
+	// must be judged exactly as without it
+	Secret bool `json:"udp_shared_secret,omitempty"`
 }
 
 func (d caseDesc) mode() string {
@@ -64,6 +68,9 @@ func runCase(d caseDesc) (established bool, targetBytes int, problem string, inc
 	if d.Carrier == vlib.CarDNS {
 		cfg.HostSpelling = ""
 		cfg.Domain = host
+	}
+	if d.Secret {
+		cfg.Secret, cfg.ClientSecret = "s3cret", "s3cret"
 	}
 	switch d.ClientCert {
 	case "own":
@@ -132,6 +139,9 @@ func allCases(withDNS bool) []caseDesc {
 					for _, cc := range ccs {
 						for _, req := range []bool{false, true} {
 							out = append(out, caseDesc{Carrier: car, ServerCert: sc, Insecure: ins, ClientCert: cc, Require: req, Host: host})
+							if car == vlib.CarUDP && host == "localhost" && cc != "foreign" {
+								out = append(out, caseDesc{Carrier: car, ServerCert: sc, Insecure: ins, ClientCert: cc, Require: req, Host: host, Secret: true})
+							}
 						}
 					}
 				}
@@ -185,20 +195,37 @@ func signature(d caseDesc, est, want bool) string {
 func TestAdmissionMatrix(t *testing.T) {
 	shard, shards := vlib.Shard()
 	cases := allCases(vlib.Thorough())
-	failures := 0
+	var failures int32
 	complete := true
+	// the cases are independent pairs on their own ports (six at a time); the DNS carrier has one process-wide server
+	var wg sync.WaitGroup
+	sem := make(chan struct{}, 6)
 	for i, d := range cases {
 		if i%shards != shard {
 			continue
 		}
-		if !judge(t, d) {
-			failures++
-			if failures >= 12 {
-				complete = false
-				break
-			}
+		if atomic.LoadInt32(&failures) >= 12 {
+			complete = false
+			break
 		}
+		if d.Carrier == vlib.CarDNS {
+			wg.Wait()
+			if !judge(t, d) {
+				atomic.AddInt32(&failures, 1)
+			}
+			continue
+		}
+		wg.Add(1)
+		sem <- struct{}{}
+		go func(d caseDesc) {
+			defer wg.Done()
+			defer func() { <-sem }()
+			if !judge(t, d) {
+				atomic.AddInt32(&failures, 1)
+			}
+		}(d)
 	}
+	wg.Wait()
 	if !vlib.Thorough() {
 		// a few DNS cases also in the quick tier
 		for _, d := range []caseDesc{
